@@ -34,7 +34,14 @@ import (
 // All returned errors can be used as description in an OAuth2 error.
 func validatePresentationSigner(presentation vc.VerifiablePresentation, expectedCredentialSubjectDID did.DID) (*did.DID, error) {
 	if len(presentation.VerifiableCredential) == 0 {
-		return credential.PresentationSigner(presentation)
+		signerDID, err := credential.PresentationSigner(presentation)
+		if err != nil {
+			return nil, err
+		}
+		if !expectedCredentialSubjectDID.Empty() && !signerDID.Equals(expectedCredentialSubjectDID) {
+			return nil, errors.New("not all presentations have the same credential subject ID")
+		}
+		return signerDID, nil
 	}
 	subjectDID, err := credential.PresenterIsCredentialSubject(presentation)
 	if err != nil {
